@@ -32,14 +32,16 @@ Definition ends_with (d s : string) : bool :=
 Definition contains (d k : string) : bool :=
   match index 0 k d with Some _ => true | None => false end.
 
-(* d: normalised name; hits: the regex patterns (among those written in the rules) that match d (oracle) *)
+(* d: normalised name; hits: the regex patterns (among those written in the rules) that match d (oracle: Go regexp on
+   the lower-cased name without trailing dot; no hits are reported for a question without name).
+   The root name "." normalises to "": no full / suffix / keyword pattern matches it, a regex (e.g. ".*") can. *)
 Definition domain_holds (k : dkind) (s d : string) (hits : list string) : bool :=
-  negb (String.eqb d "") &&
   match k with
-  | DFull => String.eqb d s
-  | DSuffix => if prefix "." s then ends_with d s
-               else String.eqb d s || ends_with d (String "."%char s)
-  | DKeyword => contains d s
+  | DFull => negb (String.eqb d "") && String.eqb d s
+  | DSuffix => negb (String.eqb d "") &&
+               (if prefix "." s then ends_with d s
+                else String.eqb d s || ends_with d (String "."%char s))
+  | DKeyword => negb (String.eqb d "") && contains d s
   | DRegex => existsb (String.eqb s) hits
   end.
 
